@@ -322,7 +322,9 @@ C04c_Cers ==
 C11c_Cers ==
     { << Cer("client", "mc", [BaseCReq EXCEPT !.residentKey = rk, !.requireRk = rr, !.credProps = cp], BaseEnv),
          Cer("client", "ga", [BaseCReq EXCEPT !.uvreq = u], [BaseEnv EXCEPT !.uv = UvOk(TRUE, u # "discouraged")]) >> :
-        rk \in {"absent", "discouraged", "preferred", "required"}, rr \in BOOLEAN, cp \in {"absent", "false", "true"},
+        \* "unknown": a residentKey string this library does not know, as it arrives in a relying party's JSON - ignored,
+        \* i.e. requireResidentKey decides
+        rk \in {"absent", "discouraged", "preferred", "required", "unknown"}, rr \in BOOLEAN, cp \in {"absent", "false", "true"},
         u \in {"preferred", "discouraged"} }
     \cup
     { << Cer("client", "mc", [WithDom(BaseCReq, d) EXCEPT !.residentKey = rk, !.credProps = cp], BaseEnv),
